@@ -159,7 +159,7 @@ def markToCollect (hasDb : Bool) (s : Store) : Nat → WN → List Nib → MRes
     match n with
     | .routing h ch w d tc =>
       match key with
-      | [] => { node := n, err := some .panic }
+      | [] => { node := .routing h ch w d true }     -- a branch below the full key depth: marked, no descent (round-4 fix)
       | k :: ks =>
         let r := markToCollect hasDb s fuel (ch k) ks
         match r.err with
